@@ -194,6 +194,13 @@ def obligations(tier, seed):
         seqs = k1 + [x for x in k2 if cost(*x) <= 3] + [x for x in k2core if cost(*x) == 4]
         seqs += [x for x in k3 if cost(*x) <= 3] + rnd.sample([x for x in k3 if cost(*x) == 4], 120)
         seqs += rnd.sample([x for x in k4 if cost(*x) == 4], 60) + rnd.sample([x for x in k3 if cost(*x) == 5], 12)
+    # undo-log cancellation with other entries in between (size 4, always included): a triple present at the start is
+    # removed, something else changes the store, the triple is re-added (and the mirror image for an absent triple)
+    between = [("add", "g1"), ("add", "g2"), ("rm000", "g1"), ("rm011", "g1"), ("rm111", "any")]
+    for mid in between:
+        seqs.append((["g1"], (("rm000", "g1"), mid, ("add", "g1"))))
+        seqs.append((["g1"], (("add", "g1"), mid, ("rm000", "g1"))))
+    seqs.append((["g1", "g1"], (("rm110", "g1"), ("add", "g1"))))
     seen = set()
     for init, ops in seqs:
         for end in ("rollback", "commit"):
@@ -204,7 +211,7 @@ def obligations(tier, seed):
                 continue
             seen.add(key)
             c = cost(init, ops)
-            txn(list(init), ops, end, {1: 60, 2: 90, 3: 200, 4: 900}.get(c, 1500))
+            txn(list(init), ops, end, {1: 60, 2: 90, 3: 200, 4: 600 if tier == "quick" else 900}.get(c, 1500))
     # two wrappers
     base_ops = [("add", "g1"), ("rm000", "g1")]
     two = []
@@ -231,6 +238,7 @@ def obligations(tier, seed):
 
 def bounds(tier):
     return {
+        "txn-between": "always: remove(t) / add(t) separated by one other store-changing operation, t present or absent at the start (size 4)",
         "txn": "initial content 0-2 symbolic triples in g1/g2; k<=2 ops over add/remove(8 pattern shapes) x {g1,g2,no graph}"
                " (quick: core subset for k=2) plus seeded k=3 sample (%s); rollback and commit endings"
                % ("24" if tier == "quick" else "250, and 60 of k=4"),
